@@ -13,7 +13,7 @@ Decides the plumbing, not the TPE decision itself (C14.TABLE.decision) nor concr
 from lib import cfg, shape, protocol, panics
 from lib.facts import callee
 from lib.rulelib import get_fn, short
-from lib.threading import resolve
+from lib.accroot import resolve
 
 API = "cedar_policy::api::tpe::"
 PS = API + "<impl cedar_policy::api::PolicySet>::"
